@@ -354,7 +354,7 @@ class HistoryRunner:
         self.violations.append((sig, what))
 
     # ------------------------------------------------------------------ observation of a real context
-    def observe(self, lctx: typing.Any) -> typing.Dict[str, typing.Any]:
+    def observe(self, lctx: typing.Any, template: bool = True) -> typing.Dict[str, typing.Any]:
         tl = lctx.get_target_language()
         obs: typing.Dict[str, typing.Any] = {}
         raw = {sec: self.canon(m) for sec, m in lctx.config.sections().items()}
@@ -370,7 +370,10 @@ class HistoryRunner:
             obs["list:" + k] = _try(lambda k=k: R.unwrap(self.canon(tl.get_config_value_as_list(k, [UNSET]))))  # type: ignore
         obs["prop:extension"] = _try(lambda: tl.extension)
         obs["prop:name"] = _try(lambda: tl.name)
-        obs["template"] = _try(lambda: self.render_options(lctx))
+        if template:
+            # only at creation: a probe environment copies get_options() when it is built, so re-rendering later adds
+            # nothing to re-reading get_options()
+            obs["template"] = _try(lambda: self.render_options(lctx))
         return obs
 
     @staticmethod
@@ -575,7 +578,7 @@ class HistoryRunner:
             bi, lctx, then, cdesc = rec
             if bi == builder_index:
                 continue
-            now = self.observe(lctx)
+            now = self.observe(lctx, template=False)
             if now != then:
                 key = "?"
                 for k in sorted(now):
@@ -598,7 +601,7 @@ class HistoryRunner:
         for rec in self.contexts:
             bi, lctx, then, _ = rec
             if bi == builder_index:
-                now = self.observe(lctx)
+                now = self.observe(lctx, template=False)
                 if now != then:
                     self.stat("same_builder_earlier_context_follows_later_create")
                     rec[2] = now
@@ -647,14 +650,15 @@ class HistoryRunner:
                     self.compare(obs, rc, "api", desc)
                     self.note_outcome(obs, rb, initial)
                     self.note_same_builder(bi)
+                    base = {k: v for k, v in obs.items() if k != "template"}
                     if bi + 1 < len(builders):
                         # baseline for the later re-observation: taken after the first observation, so that anything
                         # observing itself does to the context is not attributed to the later builder
-                        again = self.observe(lctx)
-                        if again != obs:
+                        again = self.observe(lctx, template=False)
+                        if again != base:
                             self.stat("observing_changes_what_the_context_reports")
-                        obs = again
-                    self.contexts.append([bi, lctx, obs, desc])
+                        base = again
+                    self.contexts.append([bi, lctx, base, desc])
                 else:
                     key, obj = self.ovr_impl[ev]
                     self.used_ovr.add(ev)
@@ -775,12 +779,13 @@ class HistoryRunner:
             self.note_outcome(obs, rb, R.unwrap(self.builtin[rb.sec]))
             if ri > 0:
                 self.check_earlier(ri, desc)
+            base = {k: v for k, v in obs.items() if k != "template"}
             if ri + 1 < len(runs):
-                again = self.observe(lctx)
-                if again != obs:
+                again = self.observe(lctx, template=False)
+                if again != base:
                     self.stat("observing_changes_what_the_context_reports")
-                obs = again
-            self.contexts.append([ri, lctx, obs, desc])
+                base = again
+            self.contexts.append([ri, lctx, base, desc])
 
     def compare_sections_only(self, fake: dict, rc: R.RefContext, desc: str) -> None:
         """the --list-configuration dump against the reference (same rules as compare() step 1)."""
